@@ -79,3 +79,26 @@ Theorem C10_presorted_touching_refuted : exists l parts d,
   stats_ok l parts /\ wf_stats l /\ presorted_divisions_touching l = Some d /\ ~ truthful d parts.
 Proof. exact presorted_touching_refuted. Qed.
 Print Assumptions C10_presorted_touching_refuted.
+
+(* sort_values / set_index: whatever divisions the planner computed (npartitions, upsample, quantile estimates -- the
+   theorem quantifies over every division vector), rows are routed by `set_partitions_pre` (SetIndex.v, tied by T-LAYER
+   `setindex_layer`) so that every key of an earlier output partition is <= (descending: >=) every key of a later one:
+   sorting the partitions one by one gives a globally sorted frame, and (C06_set_index_partition_exact) no row is lost or
+   duplicated.  The knobs therefore change the partition layout only. *)
+From DX Require Import Divisions Loc SetIndex SetIndexProofs.
+Theorem C10_sort_any_divisions_ordered : forall divs rows i j x y, 2 <= length divs -> keys_above divs rows ->
+  i < j -> j < length divs - 1 ->
+  In x (nth i (sp_parts divs rows) []) -> In y (nth j (sp_parts divs rows) []) -> (x <= y)%Z.
+Proof. exact sort_partitions_ordered. Qed.
+Print Assumptions C10_sort_any_divisions_ordered.
+
+Theorem C10_sort_desc_any_divisions_ordered : forall divs rows i j x y, 2 <= length divs -> keys_above divs rows ->
+  i < j -> j < length divs - 1 ->
+  In x (nth i (sp_parts_desc divs rows) []) -> In y (nth j (sp_parts_desc divs rows) []) -> (y <= x)%Z.
+Proof. exact sort_desc_partitions_ordered. Qed.
+Print Assumptions C10_sort_desc_any_divisions_ordered.
+
+Theorem C10_sort_below_refuted : exists divs rows i j x y, 2 <= length divs /\ i < j /\ j < length divs - 1 /\
+  In x (nth i (sp_parts divs rows) []) /\ In y (nth j (sp_parts divs rows) []) /\ (y < x)%Z.
+Proof. exact sort_partitions_below_refuted. Qed.
+Print Assumptions C10_sort_below_refuted.
